@@ -27,7 +27,8 @@ ASSUMPTIONS = ["torch.autograd is the reference; both sides run on separately bu
 LEVEL_TEXT = "Generated-input differential testing against torch.autograd on twin graphs. No proof."
 LEVEL_NOTE = "Trusted: torch.autograd.backward / grad as the reference implementation of vector-Jacobian products."
 TECHNIQUE = "property-based differential testing (Hypothesis) against torch.autograd on twin graphs"
-REQUIRED_CLASSES = {"backward": 1, "mtl": 1, "Constant": 1, "Sum": 1, "Mean": 1, "inputs=None": 1}
+REQUIRED_CLASSES = {"backward": 1, "mtl": 1, "Constant": 1, "Sum": 1, "Mean": 1, "inputs=None": 1, "duplicate-in-tensors": 1,
+                    "extreme:huge": 1, "extreme:tiny": 1}
 
 REL = {"float64": 1e-11, "float32": 1e-4}
 
@@ -59,20 +60,99 @@ def _case(draw):
             k = [len(rg), int(rng.integers(1, len(rg) + 1))][int(rng.integers(0, 2))]
             inputs = [rg[i] for i in rng.permutation(len(rg))][:k]
         extra = {"inputs": inputs}
+        if rng.integers(0, 8) == 0:
+            # the same tensor listed twice in `tensors`: torch.autograd counts it twice; torchjd may refuse the call
+            # (ValueError, nothing written) or agree with autograd - never silently do something else
+            k = int(rng.integers(0, len(prog["outputs"])))
+            extra["dup_output"] = [k, int(rng.integers(0, len(prog["outputs"]) + 1))]
+            m += P.numel(shapes[tuple(prog["outputs"][k])])
     else:
         prog = draw(P.mtl_programs())
         m = len(prog["losses"])
         extra = {"explicit_tasks": bool(rng.integers(0, 3) > 0), "explicit_shared": bool(rng.integers(0, 3) > 0),
-                 "features_as_tensor": bool(rng.integers(0, 2)), "retain": False}
+                 "features_as_tensor": bool(rng.integers(0, 2)), "retain": False,
+                 "frozen_trunk": bool(rng.integers(0, 8) == 0)}  # shared_params=[] passed explicitly (heads-only training)
     agg = ["Constant", "Constant", "Sum", "Mean"][int(rng.integers(0, 4))]
     chunks = [None, None, 1] + list(range(1, m + 3))
     return {"kind": kind, "prog": prog, "agg": agg, "w": _weights(rng, m), "chunk": chunks[int(rng.integers(0, len(chunks)))],
             "pre": jdcheck.pre_grads(rng, prog), **extra}
 
 
+@st.composite
+def _extreme_case(draw):
+    """Linear programs y = C x whose Jacobian entries sit at the far ends of the floating-point range while the
+    weighted combination itself is representable: autograd's sum_i w_i C_ij is finite, so must torchjd's be."""
+    rng = np.random.default_rng(draw(st.integers(0, 2**32 - 1)))
+    m, n = int(rng.integers(2, 7)), int(rng.integers(1, 5))
+    agg = ["Constant", "Mean", "Mean", "Sum"][int(rng.integers(0, 4))]
+    w = _weights(rng, m) if agg == "Constant" else ([1.0] * m if agg == "Sum" else [1.0 / m] * m)
+    if not any(w):
+        w[0] = 1.0
+    return {"kind": "extreme", "api": ["backward", "mtl"][int(rng.integers(0, 2))], "seed": int(rng.integers(0, 2**31)), "m": m, "n": n,
+            "agg": agg, "w": w, "dtype": ["float32", "float64"][int(rng.integers(0, 2))], "end": ["huge", "huge", "tiny"][int(rng.integers(0, 3))],
+            "same_sign": bool(rng.integers(0, 2)), "chunk": [None, 1, 2][int(rng.integers(0, 3))]}
+
+
+def _run_extreme(case, out):
+    dtype, tdt = case["dtype"], getattr(torch, case["dtype"])
+    rng = np.random.default_rng(case["seed"])
+    m, n = case["m"], case["n"]
+    w64 = np.array(case["w"], dtype=np.float64)
+    fmax = float(torch.finfo(tdt).max)
+    # |sum_i w_i C_ij| <= sum_i |w_i| |C_ij| <= 0.45 fmax: every partial sum of the weighted combination is finite,
+    # whereas the plain column sums of C (up to m * mag) are not representable when sum|w_i| <= 1
+    mag = 0.45 * fmax / max(float(np.abs(w64).sum()), 1e-3) if case["end"] == "huge" else float(torch.finfo(tdt).tiny) * 8
+    mag = min(mag, 0.45 * fmax)
+    C = mag * rng.uniform(0.5, 1.0, size=(m, n)) * (1.0 if case["same_sign"] else rng.choice([-1.0, 1.0], size=(m, n)))
+    A, w = _agg(case, m, tdt)
+    out.cls("extreme:" + case["end"], "extreme:" + case["api"], case["agg"], dtype)
+    grads = []
+    for side in ("torchjd", "autograd"):
+        x = torch.tensor(rng.standard_normal(n) if side == "torchjd" else np.zeros(n), dtype=tdt, requires_grad=True)
+        Ct = torch.tensor(C, dtype=tdt)
+        if case["api"] == "backward":
+            y = Ct @ x
+            k = m // 2
+            tensors = [y[:k], y[k:]] if k else [y]
+            if side == "torchjd":
+                try:
+                    backward(tensors, A, inputs=[x], parallel_chunk_size=case["chunk"])
+                except Exception as e:  # noqa: BLE001
+                    out.check(False, f"backward-raises:{type(e).__name__}", str(e)[:300])
+                    return out
+            else:
+                torch.autograd.backward(tensors, [w[:k], w[k:]] if k else [w])
+        else:
+            feat = x * 1.0
+            losses = [(Ct[i] * feat).sum() for i in range(m)]
+            if side == "torchjd":
+                try:
+                    mtl_backward(losses, feat, A, tasks_params=[[] for _ in range(m)], shared_params=[x], parallel_chunk_size=case["chunk"])
+                except Exception as e:  # noqa: BLE001
+                    out.check(False, f"mtl_backward-raises:{type(e).__name__}", str(e)[:300])
+                    return out
+            else:
+                cot = sum(wi * torch.autograd.grad(loss, feat, retain_graph=True)[0] for wi, loss in zip(w, losses))
+                torch.autograd.backward(feat, cot, inputs=[x])
+        grads.append(x.grad)
+    ga, gb = grads
+    if not out.check(ga is not None and tuple(ga.shape) == (n,), "extreme:grad-missing", str(ga)):
+        return out
+    if not bool(torch.isfinite(gb).all()):
+        out.excluded = "autograd-result-not-finite"
+        return out
+    scale = float((np.abs(w.double().numpy())[:, None] * np.abs(C)).sum(0).max())
+    err = float((ga.double() - gb.double()).abs().max()) if bool(torch.isfinite(ga).all()) else float("inf")
+    out.within(err, REL[dtype] * scale + 16 * m * float(torch.finfo(tdt).smallest_normal) * float(torch.finfo(tdt).eps),
+               f"extreme:{case['api']}:differs-from-autograd", f"torchjd {ga.tolist()} vs torch.autograd {gb.tolist()} (|C| ~ {mag:.2e}, w = {case['w']})")
+    out.nontrivial = True
+    return out
+
+
 def parts(tier):
     n = 5_000 if tier == "quick" else 120_000
-    return [Part("generated", "given", n=n, strategy=_case)]
+    return [Part("generated", "given", n=n, strategy=_case),
+            Part("extreme_scales", "given", n=600 if tier == "quick" else 20_000, strategy=_extreme_case)]
 
 
 def _agg(case, m, tdt):
@@ -105,6 +185,8 @@ def _compare(out, label, g1, g2, requested, before, dtype, scale):
 
 def run_case(case) -> Outcome:
     out = Outcome()
+    if case.get("kind") == "extreme":
+        return _run_extreme(case, out)
     prog, dtype = case["prog"], case["prog"]["dtype"]
     tdt = getattr(torch, dtype)
     dual = P.run_dual(prog)
@@ -116,8 +198,12 @@ def run_case(case) -> Outcome:
     before = jdcheck.set_pre_grads(g1.leaves, case["pre"])
     jdcheck.set_pre_grads(g2.leaves, case["pre"])
     if case["kind"] == "backward":
-        tensors1 = [g1.get(r) for r in prog["outputs"]]
-        tensors2 = [g2.get(r) for r in prog["outputs"]]
+        refs = list(prog["outputs"])
+        if case.get("dup_output"):
+            refs.insert(case["dup_output"][1], refs[case["dup_output"][0]])
+            out.cls("duplicate-in-tensors")
+        tensors1 = [g1.get(r) for r in refs]
+        tensors2 = [g2.get(r) for r in refs]
         m = sum(t.numel() for t in tensors1)
         A, w = _agg(case, m, tdt)
         inputs = case["inputs"]
@@ -129,6 +215,12 @@ def run_case(case) -> Outcome:
         try:
             backward(tensors1, A, parallel_chunk_size=case["chunk"], **kw1)
         except Exception as e:  # noqa: BLE001
+            if case.get("dup_output") and isinstance(e, ValueError):
+                out.cls("duplicate-in-tensors:refused")
+                untouched = all((a.grad is None and before[i] is None) or (a.grad is not None and before[i] is not None and torch.equal(a.grad, before[i]))
+                                for i, a in enumerate(g1.leaves))
+                out.check(untouched, "backward:refused-call-wrote-grad", "duplicate tensor refused after a .grad was written")
+                return out
             out.check(False, f"backward-raises:{type(e).__name__}", str(e)[:300])
             return out
         gts, off = [], 0
